@@ -18,7 +18,7 @@ Section EvalProgram.
   Theorem eval_program dh tbl vars locals bi prog ts tail :
     Forall pseg_ok prog -> has_char ch_open tail = false ->
     Forall (fun p => has_char ch_tick (ps_pre p) = false) prog -> has_char ch_tick tail = false ->
-    Forall2 (fun p t => b_dst gl ct sp (ps_b p) = Ret t) prog ts ->
+    Forall2 (fun p t => ps_out gl ct sp p = Ret t) prog ts ->
     (forall l, bi = Some l -> (l < List.length dh)%nat) ->
     let r := eval_M V (c10_has ct sp) (c10_locate gl sp) pyeval dh tbl vars (program_text prog tail) locals bi in
     exists text,
